@@ -292,7 +292,7 @@ pub proof fn lemma_read_result(q: Map<u64, Seq<u8>>, r: u64, count: int)
     assert(q[r].subrange(0, n) + q[r].subrange(n, q[r].len() as int) =~= q[r]);
 }
 impl Axecutor {
-// ---- pipe_create = closure of register_pipe (src src/helpers/syscalls.rs:173)
+// ---- pipe_create = closure of register_pipe (src src/helpers/syscalls.rs:185)
 fn pipe_create(ax: &mut Axecutor) -> (res: Result<HookResult, AxError>)
     requires pipes_wf(old(ax).state.syscalls),
     ensures
@@ -365,7 +365,7 @@ fn pipe_create(ax: &mut Axecutor) -> (res: Result<HookResult, AxError>)
             }
             Ok(HookResult::Handled)
 }
-// ---- pipe_read = closure of register_pipe (src src/helpers/syscalls.rs:226)
+// ---- pipe_read = closure of register_pipe (src src/helpers/syscalls.rs:238)
 fn pipe_read(ax: &mut Axecutor) -> (res: Result<HookResult, AxError>)
     requires pipes_wf(old(ax).state.syscalls),
     ensures
@@ -421,14 +421,16 @@ fn pipe_read(ax: &mut Axecutor) -> (res: Result<HookResult, AxError>)
                 .insert(fd, available_content[max_bytes as usize..].to_vec());
 
             proof {
-                let q = qview(old(ax).state.syscalls)[fd];
-                assert(available_content@ =~= q);
-                assert(qview(ax.state.syscalls) =~= qview(old(ax).state.syscalls).insert(fd, q.subrange(max_bytes as int, q.len() as int)));
+                // (stated over the entry state only, so that renamed or restructured locals do not matter)
+                let r = old(ax).state.regs.rdi;
+                let q = qview(old(ax).state.syscalls)[r];
+                let n = min_nat(old(ax).state.regs.rdx as int, q.len() as int);
+                assert(qview(ax.state.syscalls) =~= qview(old(ax).state.syscalls).insert(r, q.subrange(n, q.len() as int)));
             }
             // Skip the rest -- that way users that register read syscalls won't ever see this
             Ok(HookResult::Handled)
 }
-// ---- pipe_write = closure of register_pipe (src src/helpers/syscalls.rs:262)
+// ---- pipe_write = closure of register_pipe (src src/helpers/syscalls.rs:274)
 fn pipe_write(ax: &mut Axecutor) -> (res: Result<HookResult, AxError>)
     requires pipes_wf(old(ax).state.syscalls),
     ensures
@@ -478,9 +480,11 @@ fn pipe_write(ax: &mut Axecutor) -> (res: Result<HookResult, AxError>)
             ax.reg_write_64(RAX, count)?;
 
             proof {
-                let q = qview(old(ax).state.syscalls)[write_end];
-                assert(bytes@ =~= mem_range(old(ax).state.mem.bytes@, buf as int, count as int));
-                assert(qview(ax.state.syscalls) =~= qview(old(ax).state.syscalls).insert(write_end, q + bytes@));
+                let r = old(ax).state.syscalls.pipes_write_ends@[old(ax).state.regs.rdi];
+                let q = qview(old(ax).state.syscalls)[r];
+                let b = mem_range(old(ax).state.mem.bytes@, old(ax).state.regs.rsi as int, old(ax).state.regs.rdx as int);
+                assert(qview(ax.state.syscalls)[r] =~= q + b);
+                assert(qview(ax.state.syscalls) =~= qview(old(ax).state.syscalls).insert(r, q + b));
             }
             // Skip the rest -- that way users that register write syscalls won't ever see this
             Ok(HookResult::Handled)
